@@ -30,6 +30,34 @@ def key(row):
     return '|'.join('%s%s%s' % (s['act'], s['id'], s.get('name', '')) for s in row['steps'])
 
 
+def storm(ck, quick):
+    """the schedule that gates cannot force (nothing sits between the registry's unlock and the caller's use of the result):
+    one goroutine creates and deletes names as fast as it can while six others look them up.  A look-up must return a
+    pipe or an error, and the process must survive."""
+    import json
+    import subprocess
+    mxh = common.build_mxh()
+    rounds = 2 if quick else 8
+    total = 0
+    for k in range(rounds):
+        p = subprocess.run([mxh, 'named-storm', '-ms', '1500' if quick else '4000', '-n', '4'], stdout=subprocess.PIPE, stderr=subprocess.PIPE, timeout=600)
+        e = p.stderr.decode('utf-8', 'replace')
+        if p.returncode != 0:
+            first = [l for l in e.split('\n') if l.startswith('panic:') or l.startswith('fatal error:')]
+            if first:
+                ck.violation('crash:storm:' + first[0], 'look-ups concurrent with create/delete killed the process: ' + first[0], {'stderr': e[-2500:]})
+                return total
+            raise common.Infra('named-storm failed: ' + e[-1500:])
+        r = json.loads(p.stdout.decode().strip().split('\n')[-1])
+        ck.cov['evaluations'] += 1
+        ck.cov['storm_lookups'] = ck.cov.get('storm_lookups', 0) + r['lookups']
+        if r['nilnil']:
+            ck.violation('storm:nil-without-error', '%d of %d look-ups concurrent with create/delete returned neither a pipe nor an error' % (r['nilnil'], r['lookups']), r)
+        else:
+            total += 1
+    return total
+
+
 def concurrent_traces(ck, quick):
     """V: 4 goroutines per registry issue random create/close/delete/get/dump on 3 names without any gating while
     the real close timers fire; every registry logs its events under its mutex; TLC validates each log against
@@ -75,6 +103,7 @@ def concurrent_traces(ck, quick):
             good += regs
             if k == 0:
                 ck.sample({'kind': 'validated registry log prefix', 'events': common.read_ndjson(tr)[:20]})
+    good += storm(ck, quick)
     good += murex_level(ck, quick)
     return good
 
@@ -147,7 +176,7 @@ def run(ck, replay=None):
                       'close timer goroutine is held at a gate after its real 2 s sleep and released where the behaviour fires it; '
                       'error results, Get results and the registry contents (Dump) are compared after every step; a panic or the '
                       'death of the process is a crash.  non-trivial = another operation on the registry between a successful Close '
-                      'and the firing of its timer; distinct = different action sequences.')
+                      'and the firing of its timer; distinct = different action sequences.  Storm: look-ups racing a create/delete loop (ungated) must return a pipe or an error and must not kill the process.')
     ck.assumptions += ['the grace period is the code\'s real time.Sleep(2s); the timer is gated after the sleep (hooks are add-only)',
                        'pipes are of type std; reads/writes on the pipes themselves are covered by C01']
     r = common.tlc('NamedPipes', 'MCNamedPipes.cfg', os.path.join(ck.scratch, 'mc'), timeout=900)
